@@ -10,7 +10,7 @@ PROPERTY = "C16"
 BUDGET_S = {"quick": 600, "thorough": 900}
 STUBS = ["struct/bytes/enum lowering", "SimpleService.methods: equality-scan dict (ScanDict) so that a symbolic method id is compared, not hashed"]
 ASSUMPTIONS = [
-    "one message per datagram with a consistent length field (concatenation and bad lengths: C01/C03)",
+    "one message per datagram with a consistent length field (concatenation and bad lengths: C01/C03)", "one history variant: a method registered at run time after a request for it had been refused",
     "handlers: 0x0010 returns bytes derived from the request payload, 0x0011 returns None, 0x0012 raises MalformedMessageError; other handler exceptions are outside the statement",
 ]
 REACH = {"H16": ["h16.response", "h16.error", "h16.silent", "h16.undecodable", "h16.multicast"]}
@@ -24,7 +24,7 @@ def bounds(tier):
 
 def cases(tier, seed):
     n = 6 if tier == "thorough" else 2
-    return [{"h": "H16", "plen": k} for k in range(n + 1)]
+    return [{"h": "H16", "plen": k} for k in range(n + 1)] + [{"h": "H16", "plen": 0, "late": True}, {"h": "H16", "plen": 1, "late": True}]
 
 
 def h16(E, M, case):
@@ -60,6 +60,19 @@ def h16(E, M, case):
 
         svc.methods = ScanDict(svc.methods)
 
+    late = bool(case.get("late"))
+    if late:
+        # method 0x13 is registered only after a request for it was answered "unknown method"
+        mt0 = E.pick("mtype0", [0, 1])
+        svc.datagram_received(mk(E, wire.someip_bytes(SVC, 0x13, 1, 2, MAJOR, mt0, 0, [])), P, False)
+        E.require(len(tr.sent) == 1 and not calls, "a request for a method that is not registered yet gets one error reply")
+
+        def h_late(msg, addr):
+            calls.append(0x13)
+            return msg.payload + b"!"
+
+        svc.register_method(0x13, h_late)
+        del tr.sent[:]
     sid, mid = E.int("service", 0, 0xFFFF), E.int("method", 0, 0xFFFF)
     cid, ssn = E.int("client", 0, 0xFFFF), E.int("session", 0, 0xFFFF)
     pv, iv = E.int("proto", 0, 0xFF), E.int("iface", 0, 0xFF)
@@ -84,11 +97,11 @@ def h16(E, M, case):
         E.reach("h16.multicast")
         E.require(n == 0 and not calls, "messages received over multicast are never answered")
         return
-    known = E.Or(mid == 0x10, mid == 0x11, mid == 0x12)
+    known = E.Or(mid == 0x10, mid == 0x11, mid == 0x12, E.And(late, mid == 0x13))
     is_req = E.Or(mt == 0, mt == 1)
     chain_ok = E.And(sid == SVC, iv == MAJOR, known, is_req, rc == 0)
     exp_err = E.ite(sid != SVC, 2, E.ite(iv != MAJOR, 8, E.ite(E.Not(known), 3, E.ite(E.Not(is_req), 10, E.ite(rc != 0, 10, E.ite(mid == 0x12, 9, -1))))))
-    exp_resp = E.And(chain_ok, mid == 0x10, mt == 0)
+    exp_resp = E.And(chain_ok, E.Or(mid == 0x10, mid == 0x13), mt == 0)
     E.require(E.Iff(n == 1, E.Or(exp_err != -1, exp_resp)), "a reply is sent exactly for failed checks and for REQUESTs whose handler returned a payload", {"sent": n})
     E.require(E.Iff(len(calls) == 1, chain_ok), "the handler runs exactly when every check passed")
     E.require(len(calls) <= 1, "handler runs at most once")
